@@ -11,7 +11,7 @@ from ..fold import known
 from ..model import Class, Func, own_nodes, src
 from ..pathsem import function_paths, resolve_local
 from ..typeinf import classes_of, elem, members
-from .common import chain, loop_body_paths, mentions
+from .common import chain, deep_resolve, loop_body_paths, mentions, single_env
 from .keys import DATA_CLASSES, reinit_sites
 
 PROPERTY = "C02"
@@ -51,6 +51,18 @@ def children(ctx: Ctx, cls: Class) -> Dict[str, str]:
     return out
 
 
+def _reinit_in(ctx: Ctx, f: Func) -> bool:
+    """The (normalised) body re-creates the object from its own data: Cls(**d) + self.__dict__.update, or self.__init__(**d)."""
+    upd = any(isinstance(n, ast.Call) and isinstance(n.func, ast.Attribute) and n.func.attr == "update" and src(n.func.value) == "self.__dict__" for n in own_nodes(f.node))
+    for n in own_nodes(f.node):
+        if isinstance(n, ast.Call) and any(k.arg is None for k in n.keywords):
+            if isinstance(n.func, ast.Attribute) and n.func.attr == "__init__" and src(n.func.value) == "self":
+                return True
+            if upd and isinstance(n.func, ast.Name) and n.func.id in ctx.prog.classes:
+                return True
+    return False
+
+
 def r02_1(ctx: Ctx, rep: Report) -> None:  # noqa: C901
     rep.rule("R02.1")
     sites = reinit_sites(ctx)
@@ -61,8 +73,13 @@ def r02_1(ctx: Ctx, rep: Report) -> None:  # noqa: C901
         if st is None:
             continue
         ch = children(ctx, cls)
-        cfg = ctx.cfg(st)
-        reinit = any(f is st for f, _, _, _ in sites)
+        from .normalise import normalised
+
+        # see through a private helper called as a statement and a loop over a literal tuple of fields
+        nst = normalised(ctx, st, "calls,unroll,getattr")
+        cfg = ctx.cfg(nst)
+        reinit = any(f is st for f, _, _, _ in sites) or _reinit_in(ctx, nst)
+        senv = single_env(nst.node)  # `platform_new = h.init_platform(platform)` stored instead of the parameter itself
         param = st.params[1]
         for attr, kind in ch.items():
             rep.instance()
@@ -72,7 +89,8 @@ def r02_1(ctx: Ctx, rep: Report) -> None:  # noqa: C901
                 if n.kind == "stmt" and isinstance(n.ast, ast.Assign):
                     for t in n.ast.targets:
                         if isinstance(t, ast.Attribute) and t.attr in ("platform", "_platform") and src(t.value) == recv:
-                            return mentions(n.ast.value, "self") or mentions(n.ast.value, param)
+                            v = deep_resolve(n.ast.value, senv)
+                            return mentions(v, "self") or mentions(v, param)
                 return False
 
             ok, why = False, ""
